@@ -96,6 +96,7 @@ def main(argv=None):
     ap.add_argument("--no-evidence", action="store_true")
     ap.add_argument("--quiet", action="store_true")
     ap.add_argument("--one", type=int, help="run only run index k verbosely")
+    ap.add_argument("--hypothesis", type=int, help="number of Hypothesis-generated examples (default: 0 quick, 300 thorough)")
     args = ap.parse_args(argv)
     prop = args.prop
     tier = args.tier if args.tier in ("quick", "thorough") else "quick"
@@ -213,6 +214,17 @@ def main(argv=None):
             with open(os.path.join(d, "harness-error-k%s.json" % h.get("k")), "w") as f:
                 json.dump({"property": prop, "program": h["program"], "msg": h["msg"]}, f, indent=1)
 
+    # ------------------------------------------------ Hypothesis leg (thorough)
+    hyp = {"examples": 0, "failures": 0, "seconds": 0.0}
+    nhyp = int(os.environ.get("QSIM_HYPOTHESIS", "0" if tier == "quick" else "300"))
+    if args.hypothesis is not None:
+        nhyp = args.hypothesis
+    if nhyp > 0:
+        hyp = core.hypothesis_leg(world, prop, seed, tier, nhyp, args.workers)
+        for fl in hyp.pop("found"):
+            merged["failures"].append(fl)
+        merged["runs"] += hyp["examples"]
+
     # -------------------------------- failures: group, minimise, classify
     groups = {}
     for fl in merged["failures"]:
@@ -300,6 +312,7 @@ def main(argv=None):
                 "faults_fired": dict(sorted(merged["faults"].items())),
                 "probes_hit": dict(sorted(merged["probes"].items())),
                 "determinism": {"seeds_run_twice": det_checked, "all_digests_equal": det_ok},
+                "hypothesis_leg": hyp,
                 "components": world.components,
                 "known_findings_printed": [k["id"] for k in known_printed],
                 "failures_seen": len(merged["failures"]) + merged["failures_dropped"],
